@@ -440,6 +440,9 @@ class Session:
         logging.info("")
         logging.info(f"Record Type: {record.record_type}")
         logging.info(f"Binary: {record.raw.hex()}")
+        if len(record.binary) == 0 and record.record_type in (0x15, 0x16):
+            # an empty alert or handshake record carries nothing (and has no first byte to dispatch on)
+            return
         match record.record_type:
             # Handshake Record
             case 0x16:
